@@ -56,7 +56,12 @@ def fake_watershed(lab, sym):
             if isinstance(a, np.ndarray) and a.dtype == object:
                 return a
             return np.ascontiguousarray(a, dtype=dtype, **kw)
-        PP.np = ST._Proxy(np, ascontiguousarray=ascont)
+        def zeros(shape, dtype=None, **kw):
+            # work arrays the code fills with statistics of the symbolic spectrum must be able to hold them
+            a = np.empty(shape, dtype=object)
+            a[...] = CF(0.0)
+            return a
+        PP.np = ST._Proxy(np, ascontiguousarray=ascont, zeros=zeros)
     try:
         yield PP.specpart
     finally:
